@@ -128,8 +128,21 @@ func pieces(data []byte, cuts []int) [][]byte {
 	return out
 }
 
+// Engines are only configuration holders for the parsers here; NewEngine starts executor goroutines that live as
+// long as the process, so one engine per distinct configuration is kept (millions of recordings in the thorough tier).
+var engines = map[[2]int]*nbhttp.Engine{}
+
 func newEngine(readLimit, maxBody int, h http.Handler) *nbhttp.Engine {
-	return nbhttp.NewEngine(nbhttp.Config{ReadLimit: readLimit, MaxHTTPBodySize: maxBody, Handler: h})
+	if h != nil {
+		return nbhttp.NewEngine(nbhttp.Config{ReadLimit: readLimit, MaxHTTPBodySize: maxBody, Handler: h})
+	}
+	k := [2]int{readLimit, maxBody}
+	e := engines[k]
+	if e == nil {
+		e = nbhttp.NewEngine(nbhttp.Config{ReadLimit: readLimit, MaxHTTPBodySize: maxBody})
+		engines[k] = e
+	}
+	return e
 }
 
 func runRec(side string, data []byte, cuts []int, readLimit, maxBody int) ([]string, string) {
